@@ -6,6 +6,7 @@ import (
 	"encoding/asn1"
 	"github.com/gr33nbl00d/caddy-revocation-validator/core"
 	"github.com/gr33nbl00d/caddy-revocation-validator/crl/crlreader"
+	"unicode/utf8"
 )
 
 type ASN1Serializer struct {
@@ -21,11 +22,31 @@ func (C ASN1Serializer) DeserializeMetaInfo(crlMetaBytes []byte) (*crlreader.CRL
 }
 
 func (C ASN1Serializer) SerializeMetaInfo(metaInfo *crlreader.CRLMetaInfo) ([]byte, error) {
-	crlMetaInfoBytes, err := asn1.Marshal(*metaInfo)
+	serializableMetaInfo := *metaInfo
+	serializableMetaInfo.Issuer = serializableName(metaInfo.Issuer)
+	crlMetaInfoBytes, err := asn1.Marshal(serializableMetaInfo)
 	if err != nil {
 		return nil, err
 	}
 	return crlMetaInfoBytes, nil
+}
+
+// serializableName returns the name with all attribute values which are not valid UTF-8
+// (the latin-1 characters of a TeletexString) as raw TeletexString values.
+// asn1.Marshal refuses such strings, deserializing the raw value yields the original string again
+func serializableName(name pkix.RDNSequence) pkix.RDNSequence {
+	result := make(pkix.RDNSequence, len(name))
+	for i, rdn := range name {
+		result[i] = make(pkix.RelativeDistinguishedNameSET, len(rdn))
+		for j, attribute := range rdn {
+			value, isString := attribute.Value.(string)
+			if isString && !utf8.ValidString(value) {
+				attribute.Value = asn1.RawValue{Class: asn1.ClassUniversal, Tag: asn1.TagT61String, Bytes: []byte(value)}
+			}
+			result[i][j] = attribute
+		}
+	}
+	return result
 }
 
 func (C ASN1Serializer) DeserializeRevokedCert(revokedCertBytes []byte) (*pkix.RevokedCertificate, error) {
